@@ -101,6 +101,8 @@ def worker(task):
         V("C10", "cxx|generated-code-does-not-compile:%s|generator:%s" % (rustwl.norm_msg(re.sub(r"^.*?error:?", "", first)), d["profile"]),
           {"observed": msg[-2500:]})
         return _fin(res)
+    exps = {}
+    es0s = {}
     for fl in flavours:
         # ---- build side
         ser = h.serialize_all(fl)
@@ -145,7 +147,21 @@ def worker(task):
             for c in rustwl.type_constructs(m, tid):
                 if fl == flavours[0]:
                     res["constructs"][c] = res["constructs"].get(c, 0) + 1
+            es0 = 0
             for b, tag in rustwl.inputs_for(m, tid, encs[tid], random.Random("%s/%s/%s" % (d["gen_seed"], tid, "cxxin")), task["nb"]):
+                key = (tid, bytes(b))
+                if key not in exps:
+                    is_struct = m.dm[tid]["kind"] == "struct_declaration"
+                    exps[key] = struct_expectation(m, tid, b) if is_struct else rustwl.expectation(m, tid, b)
+                    es0s[key] = bool(getattr(getattr(m, "last_state", None), "saw_element_size_0", False))
+                e = exps[key]
+                if es0s.get(key) or (e[0] == "abstain" and "element size 0" in str(e[1])):
+                    # every such input takes the recorded `% element_size` crash (a driver restart plus a
+                    # symbolized report each): three per type show it, the rest only cost time
+                    es0 += 1
+                    if es0 > 3:
+                        res["inputs_skipped_element_size_0"] = res.get("inputs_skipped_element_size_0", 0) + 1
+                        continue
                 pairs.append((tid, b))
                 meta.append(tag)
         outs = h.parse_many(pairs, fl)
@@ -155,8 +171,7 @@ def worker(task):
             res["ops"]["parse"] = res["ops"].get("parse", 0) + 1
             tclass = tag.split(":")[0]
             res["classes"][tclass] = res["classes"].get(tclass, 0) + 1
-            is_struct = m.dm[tid]["kind"] == "struct_declaration"
-            exp = struct_expectation(m, tid, b) if is_struct else rustwl.expectation(m, tid, b)
+            exp = exps[(tid, bytes(b))]
             where = cxx_context(m, tid, exp)
             case = {"type": tid, "op": "parse", "hex": b.hex(), "input_class": tag, "flavour": fl,
                     "model": exp[0] if exp[0] != "fault" else {"fault": exp[1], "at": exp[2]}}
